@@ -464,6 +464,7 @@ GROUP = Group(
         'given distinct pids per definition',
     ],
     not_covered=['byte identity of the delivered payload, 404 routing, mediaPresentationDuration template, init segments',
-                 'served decode times rely on media_requests.py:208 (handler glue), stated as a lemma hypothesis'],
+                 'the handler glue that applies origin_time to the stored tfdt is under contract in group rep '
+                 '(generate_media_segment variants; multi-period: number addressing only - $Time$ is a known finding)'],
 )
 GROUP.callees = [REPG.GET_SEGMENT_INDEX]
